@@ -6,25 +6,25 @@ import vlib, cases, pool_common as pc
 
 def script_for(i, c):
     cfg = {"strategy": c["strategy"], "backends": [{"name": "b1", "w": 1}, {"name": "b2", "w": 1}],
-           "passive": {"on": False, "thr": 1, "win": 1}, "active": {"on": c["active"], "iv": 1}, "wspool": True}
+           "passive": {"on": False, "thr": 1, "win": 1}, "active": {"on": c["active"], "iv": 3, "to": 5}, "wspool": True}
     steps = []
     for k in range(c["conns"]):
         steps.append({"a": "poolput", "b": "b%d" % (k + 1)})
     if c["held"]:
         steps.append({"a": "req", "id": 1, "client": "10.0.0.1", "plan": "hold"})
     if c["at"] == "probe_in_flight":
-        steps += [{"a": "setprobe", "b": "b1", "r": "hang"}, {"a": "tick", "n": 1}]
+        steps += [{"a": "setprobe", "b": "b1", "r": "hang"}, {"a": "tick", "n": 3}]
     elif c["at"] == "between_ticks":
         steps.append({"a": "tick", "n": 1})
     elif c["at"] == "after_ticks":
-        steps.append({"a": "tick", "n": 3})
+        steps.append({"a": "tick", "n": 7})
     if c["stops"] == "once":
         steps.append({"a": "stop"})
     elif c["stops"] == "twice_seq":
         steps += [{"a": "stop"}, {"a": "stop"}]
     else:
         steps.append({"a": "stop2"})
-    steps.append({"a": "tick", "n": 3})
+    steps.append({"a": "tick", "n": 7})
     if c["held"]:
         steps.append({"a": "release", "id": 1, "plan": "ok"})
     steps.append({"a": "poolcheck"})
@@ -39,6 +39,12 @@ class _Backend(http.server.BaseHTTPRequestHandler):
         pass
 
     def do_GET(self):
+        try:
+            self._serve()
+        except (BrokenPipeError, ConnectionResetError):
+            pass
+
+    def _serve(self):
         _Backend.hits.append((time.time(), self.path))
         if self.path == "/healthz":
             self.send_response(200); self.send_header("Content-Length", "2"); self.end_headers(); self.wfile.write(b"ok"); return
@@ -63,6 +69,7 @@ def process_cases(sd, pcs):
     p = subprocess.run(["go", "build", "-o", binp, "./cmd/helios"], cwd=vlib.REPO, env=env, stdout=subprocess.PIPE, stderr=subprocess.STDOUT, text=True)
     if p.returncode != 0:
         raise vlib.FrameworkError("cannot build cmd/helios: " + p.stdout[-1500:])
+    http.server.ThreadingHTTPServer.handle_error = lambda *a, **k: None
     srv = http.server.ThreadingHTTPServer(("127.0.0.1", 0), _Backend)
     bport = srv.server_address[1]
     threading.Thread(target=srv.serve_forever, daemon=True).start()
@@ -149,9 +156,10 @@ def run(tier):
             if cur is not None:
                 recs.append({"c": cur, "o": o})
             cur = lb_cases[int(e["id"].split("-")[1])]
-            o = {"stopped": False, "stuck": False, "probe_after": False, "pool_open": 0, "held_status": 0}
+            o = {"stopped": False, "stuck": False, "probe_after": False, "pool_open": 0, "held_status": 0, "stop_ms": 0}
         elif e["ev"] == "stopped":
             o["stopped"] = True
+            o["stop_ms"] = max(o["stop_ms"], e.get("ms", 0))
         elif e["ev"] == "stuck":
             o["stuck"] = True
         elif e["ev"] == "probe" and e.get("stopped"):
